@@ -478,6 +478,9 @@ class C16Engine(Engine):
             return op
         if k == "JACOBI":
             shp = objs[f"{cname}.j0"].get("hshape") or [r.randint(3, 6), r.randint(3, 6)]
+            if not objs[f"{cname}.j0"].get("hshape") and r.random() < 0.25:
+                # three-dimensional problem on the same solver object: needs its dimension parameter updated first
+                shp = [r.randint(2, 4), r.randint(2, 4), r.randint(2, 4)]
             return {"op": "JACOBI", "obj": f"{cname}.j0", "x0": {"id": r.randint(0, 9999), "shape": shp},
                     "rhs": {"id": r.randint(0, 9999), "shape": shp}, "h": r.choice([0.5, 1.0, 1.0, 2.0])}
         if k == "MG":
